@@ -18,6 +18,10 @@ import Sck.Driver.FlowOps
 import Sck.Driver.DfsOps
 import Sck.Driver.BvnOps
 import Sck.Driver.IrvingOps
+import Sck.Driver.BruteOps
+import Sck.Driver.FlowHelperOps
+import Sck.Driver.ValidateOps
+import Sck.Driver.L3Ops
 import Sck.Driver.RuleOps
 import Sck.Model.Profile
 import Sck.Model.Preflib
@@ -462,7 +466,8 @@ def dispatch : String → Option (P String)
   | "generate" => some opGenerate
   | "preflib" => some opPreflib
   | "prefrow" => some opPrefRow
-  | op => (((dispatchDfs op).orElse (fun _ => dispatchBvn op)).orElse (fun _ => dispatchIrving op)).orElse (fun _ => dispatchRules op)
+  | op => (((((dispatchDfs op).orElse (fun _ => dispatchBvn op)).orElse (fun _ => dispatchIrving op)).orElse (fun _ => dispatchRules op)).orElse
+      (fun _ => dispatchBrute op)).orElse (fun _ => dispatchFlowHelpers op) |>.orElse (fun _ => dispatchValidate op) |>.orElse (fun _ => dispatchL3 op)
 
 def handle (line : String) : String :=
   let toks := (line.splitOn " ").map (fun s => s.trimAscii.toString) |>.filter (· ≠ "")
